@@ -67,6 +67,7 @@ extern "C" int LLVMFuzzerTestOneInput(const uint8_t* data, size_t size) {
     case 0: {   // WKD-IBE parameters
         Block in(data, size, odd);
         int n = embedded_pairing_wkdibe_params_unmarshalled_length(in.p, size, compressed);
+        if (n < -1) fail("length discovery returned a negative count other than -1 (callers only test for -1)");
         if (n < 0) return 0;
         embedded_pairing_wkdibe_params_t p;
         p.h = (embedded_pairing_wkdibe_g1_t*) malloc((size_t) n * sizeof(embedded_pairing_wkdibe_g1_t) + 0);
@@ -93,6 +94,7 @@ extern "C" int LLVMFuzzerTestOneInput(const uint8_t* data, size_t size) {
     case 1: {   // WKD-IBE secret key
         Block in(data, size, odd);
         int n = embedded_pairing_wkdibe_secretkey_unmarshalled_length(in.p, size, compressed);
+        if (n < -1) fail("length discovery returned a negative count other than -1 (callers only test for -1)");
         if (n < 0) return 0;
         embedded_pairing_wkdibe_secretkey_t k;
         k.b = (embedded_pairing_wkdibe_freeslot_t*) malloc((size_t) n * sizeof(embedded_pairing_wkdibe_freeslot_t));
